@@ -213,7 +213,12 @@ func c07Emit(g *Gen, stream string, capacity, nkeys int, ops []c07Op) {
 		g.Count("op:" + c07Names[o.code])
 	}
 	g.Count(fmt.Sprintf("%s:cap=%d", stream, capacity))
-	if stream != "random" {
+	switch stream {
+	case "random":
+	case "large":
+		g.Count("large:" + c07Bucket("len", len(ops)))
+		g.Count("large:" + c07Bucket("evictions", sh.evictions))
+	default:
 		g.Count(fmt.Sprintf("%s:len=%d", stream, len(ops)))
 	}
 	if sh.evictions > 0 {
@@ -296,6 +301,308 @@ func c07Full(n, nk int, fn func(ops []c07Op)) {
 		}
 		fn(ops)
 	})
+}
+
+// ---------------------------------------------------------------------------
+// The "large" stream: structured LONG histories at LARGE capacities.
+//
+// The exhaustive streams stop at capacity 4 and length 7, the random one at
+// capacity 16 and 300 calls: a change that only shows once the cache holds a
+// few hundred entries, or once some number of evictions has happened, is
+// invisible to them.  The histories below run at capacities around the powers
+// of two (and 1000), every one starting from a cache filled with distinct keys:
+//
+//	overflow-1     fill, one new key (one eviction), GetOldest, GetYoungest
+//	overflow-half  fill, capacity/2 new keys
+//	overflow-3x    fill, max(3 x capacity, 300) new keys: hundreds / thousands of
+//	               evictions in one history, every one returned and observed
+//	reverse        fill, Get sweep from the youngest to the oldest key (reverses
+//	               the whole recency order), capacity/2+1 new keys (evictions
+//	               must come out in the reversed order), Get of every 3rd key,
+//	               a sweep from the oldest to the youngest (order unchanged),
+//	               capacity/4 new keys
+//	chains         fill, capacity+3 x GetOldest (a full rotation), RemoveOldest
+//	               down to empty and twice more, accessors on the empty cache,
+//	               refill half new / half old keys, RemoveYoungest down to
+//	               empty and twice more, fill again, 3 new keys
+//	flush          fill, 5 new keys, Flush, accessors/removers on the flushed
+//	               cache, the old keys again (capacity+7 Adds), a sweep over half
+//	               of them, Flush, 3 new keys
+//	update         fill, Add of every other present key (value and recency
+//	               change, no eviction), capacity/2 new keys (the refreshed keys
+//	               must survive), Remove of every 3rd entry, new keys up to full
+//	               (no eviction) and capacity/4 more
+//	mixed          seeded random calls (Add-heavy, keys from 1.5 x capacity) on
+//	               the full cache, 2 x capacity of them (at most 1500)
+//
+// Key layouts: "dense" 0,1,2,...; "far" cycles MinKey+j, MaxKey-j, -1-j,
+// 1000003*j (so 0, -1 and both ends of the key range occur, and neighbouring
+// insertions are ~2^62 apart).  MaxKey is 2^62-1, not MaxInt64: the model
+// runner reads integers as OCaml 63-bit ints (runner/driver.ml).
+//
+// The drain that ends every observation removes the remaining entries one by
+// one from the old end, so the complete final recency order is observed.
+// Every wire input stays below 120 000 characters (one argv word on replay).
+
+const c07MaxKey = 1<<62 - 1
+
+func c07Dense(i int) int { return i }
+func c07Far(i int) int {
+	j := i / 4
+	switch i % 4 {
+	case 0:
+		return -c07MaxKey + j
+	case 1:
+		return c07MaxKey - j
+	case 2:
+		return -1 - j
+	}
+	return 1000003 * j
+}
+
+func c07Bucket(what string, n int) string {
+	for _, t := range []int{4096, 2048, 1024, 512, 256, 128} {
+		if n >= t {
+			return fmt.Sprintf("%s>=%d", what, t)
+		}
+	}
+	return fmt.Sprintf("%s<128", what)
+}
+
+// c07Builder accumulates a history while tracking the recency list, so that
+// calls can be aimed at the oldest / youngest / every n-th present key.
+type c07Builder struct {
+	capacity int
+	key      func(i int) int // i-th distinct key of the layout
+	next     int             // distinct keys used so far
+	sh       *c07Shadow
+	ops      []c07Op
+}
+
+func newC07Builder(capacity int, key func(int) int) *c07Builder {
+	return &c07Builder{capacity: capacity, key: key, sh: &c07Shadow{cap: capacity}}
+}
+func (b *c07Builder) op(code, k int) {
+	b.ops = append(b.ops, c07Op{code, k})
+	b.sh.apply(code, k)
+}
+func (b *c07Builder) held() int { return len(b.sh.keys) }
+func (b *c07Builder) addNew(n int) {
+	for i := 0; i < n; i++ {
+		b.op(c07Add, b.key(b.next))
+		b.next++
+	}
+}
+func (b *c07Builder) addOld(from, n int) { // keys number from .. from+n-1 of the layout again
+	for i := 0; i < n; i++ {
+		b.op(c07Add, b.key(from+i))
+	}
+	if from+n > b.next {
+		b.next = from + n
+	}
+}
+func (b *c07Builder) fill() { b.addNew(b.capacity - b.held()) }
+func (b *c07Builder) accessors() {
+	b.op(c07GetYoungest, 0)
+	b.op(c07GetOldest, 0)
+	b.op(c07GetYoungest, 0)
+	b.op(c07Get, b.key(b.next)) // never added
+}
+
+// sweep Gets every step-th present key of a snapshot of the recency list,
+// youngest first (fromYoungest: a full sweep reverses the order) or oldest
+// first (a full sweep leaves the order as it was).
+func (b *c07Builder) sweep(fromYoungest bool, step, limit int) {
+	snap := cloneInts(b.sh.keys) // most recent first
+	n := 0
+	for i := 0; i < len(snap) && n < limit; i += step {
+		k := snap[i]
+		if !fromYoungest {
+			k = snap[len(snap)-1-i]
+		}
+		b.op(c07Get, k)
+		n++
+	}
+}
+func (b *c07Builder) chain(code, n int) {
+	for i := 0; i < n; i++ {
+		b.op(code, 0)
+	}
+}
+
+type c07Shape struct {
+	name  string
+	far   bool // also run with the far-apart key layout
+	build func(b *c07Builder, g *Gen)
+}
+
+func c07Shapes(maxOps int) []c07Shape {
+	return []c07Shape{
+		{"overflow-1", false, func(b *c07Builder, g *Gen) {
+			b.fill()
+			b.addNew(1)
+			b.accessors()
+		}},
+		{"overflow-half", false, func(b *c07Builder, g *Gen) {
+			b.fill()
+			b.addNew(b.capacity / 2)
+			b.accessors()
+		}},
+		{"overflow-3x", true, func(b *c07Builder, g *Gen) {
+			b.fill()
+			n := 3 * b.capacity
+			if n < 300 {
+				n = 300
+			}
+			if n > maxOps-b.capacity {
+				n = maxOps - b.capacity
+			}
+			b.addNew(n)
+			b.accessors()
+		}},
+		{"reverse", true, func(b *c07Builder, g *Gen) {
+			b.fill()
+			b.sweep(true, 1, b.capacity)
+			b.op(c07GetOldest, 0)
+			b.op(c07GetYoungest, 0)
+			b.addNew(b.capacity/2 + 1)
+			b.sweep(true, 3, b.capacity)
+			b.sweep(false, 1, b.capacity)
+			b.addNew(b.capacity / 4)
+		}},
+		{"chains", false, func(b *c07Builder, g *Gen) {
+			b.fill()
+			b.op(c07GetYoungest, 0)
+			b.chain(c07GetOldest, b.capacity+3)
+			b.op(c07GetYoungest, 0)
+			b.chain(c07RemoveOldest, b.held()+2)
+			b.accessors()
+			b.addNew(b.capacity / 2)
+			b.addOld(0, b.capacity-b.held())
+			b.op(c07GetYoungest, 0)
+			b.chain(c07RemoveYoungest, b.held()+2)
+			b.accessors()
+			b.fill()
+			b.addNew(3)
+		}},
+		{"flush", false, func(b *c07Builder, g *Gen) {
+			b.fill()
+			b.addNew(5)
+			b.op(c07Flush, 0)
+			b.accessors()
+			b.op(c07RemoveOldest, 0)
+			b.op(c07RemoveYoungest, 0)
+			b.op(c07Remove, b.key(0))
+			b.addOld(0, b.capacity+7)
+			b.sweep(true, 2, b.capacity)
+			b.op(c07Flush, 0)
+			b.addNew(3)
+		}},
+		{"update", true, func(b *c07Builder, g *Gen) {
+			b.fill()
+			snap := cloneInts(b.sh.keys)
+			for i := len(snap) - 1; i >= 0; i -= 2 { // from the oldest, every other key
+				b.op(c07Add, snap[i])
+			}
+			b.addNew(b.capacity / 2)
+			snap = cloneInts(b.sh.keys)
+			for i := 1; i < len(snap); i += 3 {
+				b.op(c07Remove, snap[i])
+			}
+			b.op(c07Remove, b.key(b.next)) // absent
+			b.fill()
+			b.addNew(b.capacity / 4)
+		}},
+		{"mixed", true, func(b *c07Builder, g *Gen) {
+			b.fill()
+			n := 2 * b.capacity
+			if n > 1500 {
+				n = 1500
+			}
+			keyRange := b.capacity + b.capacity/2 + 1
+			rest := []int{c07GetOldest, c07GetOldest, c07GetYoungest, c07Remove, c07Remove, c07RemoveOldest, c07RemoveYoungest}
+			for i := 0; i < n; i++ {
+				x := g.Rng.Intn(100)
+				k := b.key(g.Rng.Intn(keyRange))
+				switch {
+				case x < 55:
+					b.op(c07Add, k)
+				case x < 80:
+					b.op(c07Get, k)
+				default:
+					code := rest[g.Rng.Intn(len(rest))]
+					if code != c07Remove {
+						k = 0
+					}
+					b.op(code, k)
+				}
+			}
+			if b.next < keyRange {
+				b.next = keyRange
+			}
+		}},
+	}
+}
+
+// c07WireChars is the length of the decimal rendering of a wire input.
+func c07WireChars(capacity, nkeys int, ops []c07Op) int {
+	n := len(fmt.Sprint(capacity)) + len(fmt.Sprint(nkeys)) + 2
+	for i, o := range ops {
+		v := 0
+		if o.code == c07Add {
+			v = 101 + i
+		}
+		n += 4 + len(fmt.Sprint(o.k)) + len(fmt.Sprint(v))
+	}
+	return n
+}
+
+func genC07Large(g *Gen) {
+	caps := []int{17, 64, 100, 128, 129, 256, 300, 1000}
+	if !g.Quick() {
+		caps = append(caps, 255, 257, 512, 513, 1024, 2048)
+	}
+	for _, capacity := range caps {
+		for _, far := range []bool{false, true} {
+			maxOps := 8000 // keeps the wire input below 120 000 characters
+			layout, key := "dense", c07Dense
+			if far {
+				maxOps, layout, key = 3300, "far", c07Far
+			}
+			for _, s := range c07Shapes(maxOps) {
+				if far && !s.far {
+					continue
+				}
+				// the model's cost grows with (calls x allocations so far): at
+				// capacity >= 1000 the quick tier runs six of the eight shapes
+				// (not update, mixed) with dense keys only, the thorough tier all
+				// of them; at capacity >= 2000 dense keys only
+				if g.Quick() && capacity >= 1000 && (far || s.name == "update" || s.name == "mixed") {
+					continue
+				}
+				if capacity >= 2000 && far {
+					continue
+				}
+				b := newC07Builder(capacity, key)
+				s.build(b, g)
+				nkeys := 8
+				if !far {
+					nkeys = b.next
+					if nkeys > 1000 {
+						nkeys = 1000
+					}
+				}
+				if c07WireChars(capacity, nkeys, b.ops) > 120000 {
+					// one argv word on replay (128 KiB): never emitted; counted so that it shows
+					g.Count("large:skipped-too-long")
+					continue
+				}
+				g.Count("large:shape=" + s.name)
+				g.Count("large:keys=" + layout)
+				c07Emit(g, "large", capacity, nkeys, b.ops)
+			}
+		}
+	}
 }
 
 func genC07(g *Gen) {
@@ -390,6 +697,9 @@ func genC07(g *Gen) {
 		}
 		c07Emit(g, "malformed", capacity, 8, ops)
 	}
+	// structured long histories at large capacities (after everything else, so
+	// that the seeded streams above do not depend on it)
+	genC07Large(g)
 }
 
 func init() {
@@ -399,7 +709,11 @@ func init() {
 			"then every sequence up to length 5 with keys numbered by first use, and every 4-sequence after Add(0);Add(1) (length 6); " +
 			"thorough instead adds every such sequence of length 6 that starts with an Add and every 4-sequence after Add(0);Add(1);Add(2) (length 7)), " +
 			"values distinct per Add; observed: every return value, Count() after every call, a full RemoveOldest drain, Get of every key, final Count(); " +
-			"random: 300-call histories, capacity 1..16, keys 0..24; malformed: capacities 0,-1,-7 and odd keys. " +
+			"random: 300-call histories, capacity 1..16, keys 0..24; malformed: capacities 0,-1,-7 and odd keys; " +
+			"large: structured long histories at capacities 17, 64, 100, 128, 129, 256, 300, 1000 (thorough also 255, 257, 512, 513, 1024, 2048), each from a cache filled with distinct keys: " +
+			"overflow by 1, by capacity/2, by max(3 x capacity, 300) new keys (up to 3000 evictions in one history, thorough 5952); Get sweep youngest-to-oldest reversing the recency order then evictions, every-3rd and oldest-to-youngest sweeps; " +
+			"capacity+3 x GetOldest, RemoveOldest chain to empty (+2), refill, RemoveYoungest chain to empty (+2), refill; Flush in the middle and re-Add of the old keys; re-Add of every other present key, Remove of every 3rd, refill; " +
+			"seeded mixed calls on the full cache; keys dense 0.. and (capacity <= 300 in quick, < 2000 in thorough) far apart -(2^62-1)+j, 2^62-1-j, -1-j, 1000003*j; at capacity 1000 the quick tier runs the six dense non-random shapes. " +
 			"non-trivial = at least one eviction preceded by a Get/GetOldest hit that changed the recency order",
 		Exec:     execC07,
 		Gen:      genC07,
